@@ -1073,10 +1073,12 @@ def instants_of(line):
 
 EXHAUSTIVE = {"quick": "sample only: every 61st day (implementation vs built-in oracle) and every 499th day (vs model) of 0001-01-01..9999-12-31 at 00:00:00, "
                        "12:00:00, 23:59:59, the days around 1 January / 28 February of 1/8 of the years, all century years and their neighbours and every year 1890..2110, every second of one day; "
+                       "the strided days also exactly at midnight (t = 86400 k) and 100..900 us before midnight; "
                        "complete: all 2880 zone offsets -23:59..+23:59, every single byte and every 2-byte string over the focus alphabet",
               "thorough": "every day 0001-01-01..9999-12-31 at 00:00:00, 12:00:00 and 23:59:59 (3 x 3 652 059 instants, each with a millisecond part) on the "
                           "implementation against the built-in days-from-civil oracle, every 7th day and 8 days around the start and the end of February of "
-                          "every year also against the model; every second of 200 sampled days incl. leap days, century boundaries and both ends of the "
+                          "every year also against the model; every day additionally exactly at midnight (t = 86400 k, millisecond part 0) and 100..900 microseconds before midnight "
+                          "(oracle: every day; model: every 7th day); every second of 200 sampled days incl. leap days, century boundaries and both ends of the "
                           "1904-2099 fast path (16 of them also against the model); all 2880 zone offsets in every spelling"}
 
 
@@ -1140,7 +1142,7 @@ def extra(ctx):
     stats["scan_oracle"] = "each scanned instant: splitUTC, Date(UTC,fields), 5 formats, 4 parses compared with the model (hash) and with Hinnant civil_from_days + snprintf inside the harness; floor(t*(1/86400.0)) == day checked"
     return fails
 
-RULE = ("cases = groups of single ops on generated inputs: inst/split/fmt/rt on random and boundary instants (with milliseconds), parse on every zone offset "
+RULE = ("cases = groups of single ops on generated inputs: inst/split/fmt/rt on random and boundary instants (with milliseconds), instu/splitu/fmtu on microsecond instants 1..999 us around the end of a second, minute, hour, day, month and year and before midnight, parse on every zone offset "
         "-23:59..+23:59, fractions of 0..20 digits, canonical ISO/HTTP strings, mutated and random strings over digits T Z : - + . letters spaces up to "
         "length 40, make on valid and out-of-range field tuples; plus (extra) exhaustive scan lines, each covering up to 300 instants; "
         "non-trivial = distinct case containing an instant op or a parse of a string of >= 8 bytes")
@@ -1149,17 +1151,17 @@ TRUSTED = ["tools/props/c19.py translate(): clang-14 JSON AST walker for yearFro
            "month_days, wd[], mn[], months (src/Date.cpp) into lean/Gen/DateGen.lean; unrecognised constructs are a TranslateError",
            "harness/c19.cpp incl. its Hinnant civil_from_days oracle; python3 datetime as second reference"]
 ASSUMPTIONS = ["IEEE-754 double steps abstracted by the model and exercised exhaustively by the scan: floor(t*(1/86400.0)) and floor(t/86400.0) are the integer day, "
-               "the h/m/s extraction from the fractional day of t+0.0005 is the exact second of the day, int(1000*fract(t)+0.5)%1000 is the millisecond, "
+               "t + 0.0005 followed by the floors is the instant rounded to the nearest millisecond (model: roundMs on microseconds; exercised 100..900 us around every kind of field boundary and before every midnight, never exactly at the 500 us tie), the h/m/s extraction from the fractional day is the exact second of the day, int(1000*fract(t)+0.5)%1000 is the millisecond, "
                "parseInt(frac)*pow(10,1-i) added to the instant is the fraction rounded to the nearest millisecond (ties within 0.06 ms are not generated: a double near year 9999 cannot resolve them)",
                "C int arithmetic of yearFromTime does not overflow for instants of years 1..9999 (|d| < 3.7e6); elsewhere int arithmetic wraps (modelled by wrap32)",
                "TZ=UTC in the harness: strings without zone designator and the format-driven parser use the local zone, whose offset is then 0",
                "vsnprintf(\"%04i\"/\"%02i\"/\"%03i\") prints zero-padded decimals; String::split() yields the maximal runs of non-space bytes (C03)",
                "libc atoi = (int)strtol: optional space, sign, digits, saturating at the 64-bit long range"]
-LEVEL_TEXT = ("Proved in Lean 4 (no bound on the year unless stated): the leap-year macro is the Gregorian rule and timeFromYearAsDays is the unique "
+LEVEL_TEXT = ("Proved in Lean 4 over unbounded integers (the C int arithmetic is the same for every year representable without int overflow: splitUTC for years 0..5 879 609, Date(UTC,..) for years -100000..5 885 486, theorem int_range_of_the_model): the leap-year macro is the Gregorian rule and timeFromYearAsDays is the unique "
               "function that is 0 at 1970 and grows by each year's length (all integer years); month_days is the cumulative sum of the month lengths; "
               "yearFromTime (regenerated from the C source by a clang-AST translator on every run) returns y for every day of every year y >= 0 "
               "(year_of_day, incl. the 1904-2099 fast path and the 400/100/4-year block edges) and always brackets its day; splitUTC yields the calendar "
-              "fields, h/m/s and weekday (4+day) mod 7 of every instant from 0000-01-01 on (calc_is_calendar); Date(UTC, fields) o splitUTC = id to the "
+              "fields, h/m/s and weekday (4+day) mod 7 of every instant from 0000-01-01 on, for a double instant between two milliseconds those of the nearest millisecond, date and time of day of the same rounded instant (calc_is_calendar, calc_is_calendar_us); the day number is Hinnant's days_from_civil (day_number_is_days_from_civil); Date(UTC, fields) o splitUTC = id to the "
               "second and splitUTC o Date(UTC, fields) = id on every valid field tuple (construct_calc, calc_construct, fields_bijection); "
               "parse(format) = instant for the LONG, SHORT, HTTP and (to the millisecond) FULL formats for every instant of years 0..9999 (format_parse; "
               "the formatter's month names are keys of the parser's month map); an ISO string with "
@@ -1168,9 +1170,8 @@ LEVEL_TEXT = ("Proved in Lean 4 (no bound on the year unless stated): the leap-y
               "macros and all tables are regenerated into Lean from src/Date.cpp (G); calc/construct/format/parsers are hand transcriptions compared "
               "with the real library (K) on every generated input, and the library is compared with an independent days-from-civil oracle on every "
               "day of years 1..9999 at three times of day (thorough) and every second of sampled days.")
-LEVEL_NOTE = ("Not theorems (validated by K, the harness's days-from-civil oracle and python datetime only): agreement of the day number with Hinnant's "
-              "days_from_civil, ISO strings combining a fraction with an offset or omitting the seconds, the basic format with offsets; the zone offset "
+LEVEL_NOTE = ("Not theorems (validated by K, the harness's days-from-civil oracle and python datetime only): ISO strings combining a fraction with an offset or omitting the seconds, the basic format with offsets; the zone offset "
               "theorems are stated for the extended format yyyy-mm-ddThh:mm:ss+-hh[:]mm. Not in the proof: the double arithmetic of Date (floor(t/86400), fractional-day h/m/s extraction, millisecond rounding, "
               "pow(10,1-i)) is abstracted to exact integer milliseconds and checked by the exhaustive scan; int overflow for years beyond +-5.8e6 "
               "(365*(y-1970)) is outside the model and not generated; local-time paths run with TZ=UTC. Trusted: Lean kernel, the clang-AST/regex "
-              "translator in tools/props/c19.py, harness/c19.cpp. One defect found and repaired: Date(str, fmt) read past the end of str (repo commit 2de0295).")
+              "translator in tools/props/c19.py, harness/c19.cpp. Instants are modelled in microseconds with the rounding to the millisecond explicit (roundMs); ties at exactly 0.5 ms are not generated (a double near year 9999 resolves 30 us). Two defects found and repaired: Date(str, fmt) read past the end of str (repo 2de0295); within 0.5 ms before midnight splitUTC/toString took the date from the unrounded and the time from the rounded instant (repo 4c81461).")
